@@ -73,11 +73,16 @@ def units(tier):
 
 
 def snapshot(ctx, sess):
+    from checks import sess as SS
+
+    side = "client" if type(sess).__name__ == "LDAPClient" else "server"
+    o, sr, _ = SS.roles(ctx, side)
+    res = SS.residue_attr(ctx, side)
     return (
         sess.state.name,
-        sorted_members(sess._outstanding_requests),
-        sorted_members(sess._search_requests),
-        ctx.tobytes(sess._incoming_buffer),
+        sorted_members(getattr(sess, o)),
+        sorted_members(getattr(sess, sr)),
+        ctx.tobytes(getattr(sess, res)) if res else b"",
     )
 
 
